@@ -1,8 +1,12 @@
 (* SpecConfig.v — what property C16 demands of a configuration that passes validation (`safe`, a Prop written by hand
    from the property text, independent of the code), its boolean checker `safe_b` (evaluated on OBSERVED verdicts by
-   the correspondence run), what validation demands beyond `safe`, and the finite key tables.  Definitions only. *)
+   the correspondence run), the hand-written MODEL of controller.ValidateNodeGroup (`model_rules`, one boolean per
+   checkThat in source order), what validation demands beyond `safe`, and the finite key tables.  Definitions only.
+   Nothing here depends on the generated file (coq/Generated.v): the model is tied to the code by the correspondence
+   run (verdict AND number of problems on every case of the grid) and, as a supplement, by Properties/C16Src.v, which
+   proves the rule list re-derived from the source equal to `model_rules`. *)
 From Coq Require Import String ZArith List Bool.
-From Esc Require Export Base Config Generated.
+From Esc Require Export Base Config.
 Import ListNotations.
 Open Scope string_scope.
 Open Scope Z_scope.
@@ -84,5 +88,78 @@ Definition unhonoured (documented tags : list string) : list string :=
 Definition yaml_differs (tbl : list (string * (string * string))) : list (string * (string * string)) :=
   filter (fun r => negb (String.eqb (fst (snd r)) (snd (snd r)))) tbl.
 
+(* ---- the validation MODEL: controller.ValidateNodeGroup, one boolean per checkThat(cond, …), in source order (the
+   order matters only for reports; the NUMBER of false rules is compared with the number of problems the real validator
+   returns).  Helpers mirror the Go helpers of pkg/controller/node_group.go. ---- *)
+(* k8s.TaintEffectTypes (pkg/k8s/taint.go), a map[v1.TaintEffect]bool literal *)
+Definition taint_effect_types : list (string * bool) :=
+  [("NoExecute", true); ("NoSchedule", true); ("PreferNoSchedule", true)].
+(* NodeGroupOptions.autoDiscoverMinMaxNodeOptions: both left at 0 = "discover them from the cloud provider" *)
+Definition auto_discover_min_max (c : cfg) : bool := (c_min c =? 0) && (c_max c =? 0).
+(* validTaintEffect: empty (AddToBeRemovedTaint then defaults to NoSchedule) or a key of TaintEffectTypes *)
+Definition valid_taint_effect (e : string) : bool := (slen e =? 0) || str_map_get taint_effect_types e.
+(* validAWSLifecycle: empty, aws.LifecycleOnDemand or aws.LifecycleSpot (exact, case-sensitive comparison) *)
+Definition valid_aws_lifecycle (l : string) : bool := (slen l =? 0) || String.eqb l "on-demand" || String.eqb l "spot".
+(* validMaxNodeAgeDuration: empty or accepted by time.ParseDuration (negative values included) *)
+Definition valid_max_node_age (d : dur) : bool := String.eqb (d_raw d) "" || dur_parse_ok d.
+
+Definition model_rules : list (cfg -> bool) := [
+  (fun c => 0 <? slen (c_name c));
+  (fun c => 0 <? slen (c_label_key c));
+  (fun c => 0 <? slen (c_label_value c));
+  (fun c => 0 <? slen (c_cloud_group c));
+  (fun c => 0 <? c_upper c);
+  (fun c => 0 <? c_lower c);
+  (fun c => 0 <? c_up c);
+  (fun c => c_lower c <? c_upper c);
+  (fun c => c_upper c <? c_up c);
+  (fun c => implb (negb (auto_discover_min_max c)) (c_min c <? c_max c));
+  (fun c => implb (negb (auto_discover_min_max c)) (0 <? c_max c));
+  (fun c => implb (negb (auto_discover_min_max c)) (0 <=? c_min c));
+  (fun c => 0 <=? c_slow c);
+  (fun c => c_slow c <=? c_fast c);
+  (fun c => 0 <? slen (d_raw (c_soft c)));
+  (fun c => 0 <? slen (d_raw (c_hard c)));
+  (fun c => 0 <? dur_value (c_soft c));
+  (fun c => 0 <? dur_value (c_hard c));
+  (fun c => dur_value (c_soft c) <? dur_value (c_hard c));
+  (fun c => 0 <? slen (d_raw (c_cooldown c)));
+  (fun c => 0 <? dur_value (c_cooldown c));
+  (fun c => valid_taint_effect (c_taint_effect c));
+  (fun c => valid_aws_lifecycle (c_lifecycle c));
+  (fun c => valid_max_node_age (c_max_node_age c))
+].
+
+(* what each rule stands for in pkg/controller/node_group.go, in the same order (for reports only; hand-written) *)
+Definition model_rule_src : list string := [
+  "name not empty";
+  "label_key not empty";
+  "label_value not empty";
+  "cloud_provider_group_name not empty";
+  "taint_upper_capacity_threshold_percent > 0";
+  "taint_lower_capacity_threshold_percent > 0";
+  "scale_up_threshold_percent > 0";
+  "taint_lower_capacity_threshold_percent < taint_upper_capacity_threshold_percent";
+  "taint_upper_capacity_threshold_percent < scale_up_threshold_percent";
+  "unless min_nodes = max_nodes = 0: min_nodes < max_nodes";
+  "unless min_nodes = max_nodes = 0: max_nodes > 0";
+  "unless min_nodes = max_nodes = 0: min_nodes >= 0";
+  "slow_node_removal_rate >= 0";
+  "slow_node_removal_rate <= fast_node_removal_rate";
+  "soft_delete_grace_period not empty";
+  "hard_delete_grace_period not empty";
+  "SoftDeleteGracePeriodDuration() > 0";
+  "HardDeleteGracePeriodDuration() > 0";
+  "SoftDeleteGracePeriodDuration() < HardDeleteGracePeriodDuration()";
+  "scale_up_cool_down_period not empty";
+  "ScaleUpCoolDownPeriodDuration() > 0";
+  "validTaintEffect(taint_effect)";
+  "validAWSLifecycle(aws.lifecycle)";
+  "validMaxNodeAgeDuration(max_node_age)"
+].
+
+Definition model_validate (c : cfg) : bool := forallb (fun r => r c) model_rules.
+
 (* ---- number of problems ValidateNodeGroup reports = number of rules that are false ---- *)
-Definition gen_problems (c : cfg) : Z := Z.of_nat (length (filter (fun r => negb (r c)) gen_rules)).
+Definition problems_of (rules : list (cfg -> bool)) (c : cfg) : Z := Z.of_nat (length (filter (fun r => negb (r c)) rules)).
+Definition model_problems (c : cfg) : Z := problems_of model_rules c.
